@@ -396,4 +396,340 @@ theorem textRange_root (f : Bool) (d : Doc) :
   · right
     simp [Doc.text, Doc.toks, toksBytes_append]
 
+/-! ### `text_range` of every node of the walk -/
+
+theorem field_loc {T : List Byte} {IB BP : List Bool} (k : List SChar) (ws1 ws2 : Ws) (v : JVal)
+    (G : List Tok) {kp a : Nat}
+    (h : LocT T IB BP ((JVal.str k).toks ++ ((wsToks ws1 ++ (Tok.colon :: wsToks ws2)) ++ (v.toks ++ G))) kp a) :
+    LocT T IB BP (v.toks ++ G) (kp + 2)
+      (a + blen (JVal.str k).toks + blen (wsToks ws1 ++ (Tok.colon :: wsToks ws2))) ∧
+    textRange (mkIndex T IB BP) kp = some (a, a + blen (JVal.str k).toks) := by
+  have hsafe : SafeNext ((wsToks ws1 ++ (Tok.colon :: wsToks ws2)) ++ (v.toks ++ G)) := by
+    rw [List.append_assoc]; exact safe_ws _ _ (safe_colon _)
+  have hanch : Anch T ((JVal.str k).toks ++ ((wsToks ws1 ++ (Tok.colon :: wsToks ws2)) ++ (v.toks ++ G)))
+      ((wsToks ws1 ++ (Tok.colon :: wsToks ws2)) ++ (v.toks ++ G)) a :=
+    anch_inner (bytes_ne_nil_of_mem _ Tok.colon (by simp))
+  have h3 := ((h.split).2.split).2
+  have e1 : (toksStdBp (JVal.str k).toks).length = 2 := rfl
+  have e2 : (toksStdBp (wsToks ws1 ++ (Tok.colon :: wsToks ws2))).length = 0 := by rw [toksStdBp_sep]; rfl
+  rw [e1, e2] at h3
+  exact ⟨h3, textRange_at (JVal.str k) _ h hsafe hanch⟩
+
+theorem rangesWalk_leaf {T : List Byte} {IB BP : List Bool} (v : JVal) (follow : List Tok) (b a fuel : Nat)
+    (h : LocT T IB BP (v.toks ++ follow) b a) (hs : SafeNext follow)
+    (ha : Anch T (v.toks ++ follow) follow a) (hleaf : v.isContainer = false) :
+    rangesWalk (mkIndex T IB BP) (fuel + 1) b = [some (a, a + blen v.toks)] := by
+  rw [rangesWalk, value_at v follow h, textRange_at v follow h hs ha]
+  cases v with
+  | lit l => cases l <;> simp [kindOf, blen]
+  | num n => simp [kindOf, blen]
+  | str body => simp [kindOf, blen]
+  | arr0 ws => simp [JVal.isContainer] at hleaf
+  | arr ws0 v ws1 rest => simp [JVal.isContainer] at hleaf
+  | obj0 ws => simp [JVal.isContainer] at hleaf
+  | obj ws0 k ws1 ws2 v ws3 rest => simp [JVal.isContainer] at hleaf
+
+mutual
+  theorem val_rng (T : List Byte) (IB BP : List Bool) : ∀ (v : JVal) (follow : List Tok) (b a fuel : Nat),
+      LocT T IB BP (v.toks ++ follow) b a → SafeNext follow → Anch T (v.toks ++ follow) follow a →
+      depth v ≤ fuel → rangesWalk (mkIndex T IB BP) fuel b = (spansOf v a).map some
+    | .lit l, follow, b, a, fuel, h, hs, ha, hd => by
+      obtain ⟨f, rfl⟩ : ∃ f, fuel = f + 1 := ⟨fuel - 1, by simp [depth] at hd; omega⟩
+      rw [rangesWalk_leaf _ follow b a f h hs ha rfl]; rfl
+    | .num n, follow, b, a, fuel, h, hs, ha, hd => by
+      obtain ⟨f, rfl⟩ : ∃ f, fuel = f + 1 := ⟨fuel - 1, by simp [depth] at hd; omega⟩
+      rw [rangesWalk_leaf _ follow b a f h hs ha rfl]; rfl
+    | .str s, follow, b, a, fuel, h, hs, ha, hd => by
+      obtain ⟨f, rfl⟩ : ∃ f, fuel = f + 1 := ⟨fuel - 1, by simp [depth] at hd; omega⟩
+      rw [rangesWalk_leaf _ follow b a f h hs ha rfl]; rfl
+    | .arr0 ws, follow, b, a, fuel, h, hs, ha, hd => by
+      obtain ⟨f, rfl⟩ : ∃ f, fuel = f + 1 := ⟨fuel - 1, by simp [depth] at hd; omega⟩
+      have hfc := firstChild_none h (toksStdBp follow) (by rw [toksStdBp_append, treeBp_eq]; rfl)
+      rw [rangesWalk, value_at _ follow h, textRange_at _ follow h hs ha]
+      simp [kindOf, children, hfc, siblingsFrom_none, spansOf, blen]
+    | .obj0 ws, follow, b, a, fuel, h, hs, ha, hd => by
+      obtain ⟨f, rfl⟩ : ∃ f, fuel = f + 1 := ⟨fuel - 1, by simp [depth] at hd; omega⟩
+      have hfc := firstChild_none h (toksStdBp follow) (by rw [toksStdBp_append, treeBp_eq]; rfl)
+      rw [rangesWalk, value_at _ follow h, textRange_at _ follow h hs ha]
+      simp [kindOf, objectFields, hfc, fieldsList_none, spansOf, blen]
+    | .arr ws0 v ws1 rest, follow, b, a, fuel, h, hs, ha, hd => by
+      obtain ⟨f, rfl⟩ : ∃ f, fuel = f + 1 := ⟨fuel - 1, by simp [depth] at hd; omega⟩
+      have hdv : depth v ≤ f := by simp [depth] at hd; omega
+      have hdr : itemsDepth rest ≤ f := by simp [depth] at hd; omega
+      obtain ⟨tv, htv⟩ := treeBp_head v
+      have hfc := firstChild_some h (tv ++ itemsBp rest ++ [false] ++ toksStdBp follow)
+        (by rw [toksStdBp_append, treeBp_eq]; simp [treeBp, htv])
+      have htoks : (JVal.arr ws0 v ws1 rest).toks ++ follow =
+          (Tok.lbracket :: wsToks ws0) ++ (v.toks ++ (wsToks ws1 ++ (rest.toks ++ (Tok.rbracket :: follow)))) := by
+        simp [JVal.toks]
+      have h' := h
+      rw [htoks] at h'
+      have h2 := (h'.split).2
+      rw [toksStdBp_open_ws _ rfl] at h2
+      have hsF : SafeNext (wsToks ws1 ++ (rest.toks ++ (Tok.rbracket :: follow))) :=
+        safe_ws _ _ (safe_items rest follow)
+      have haF : toksBytes (wsToks ws1 ++ (rest.toks ++ (Tok.rbracket :: follow))) ≠ [] :=
+        bytes_ne_nil_of_mem _ Tok.rbracket (by simp)
+      have hv := val_rng T IB BP v _ (b + 1) _ f h2 hsF (anch_inner haF) hdv
+      obtain ⟨post, _, hns⟩ := nextSibling_loc v _ h2
+      have hhead : toksStdBp (wsToks ws1 ++ (rest.toks ++ (Tok.rbracket :: follow))) ++ post =
+          itemsBp rest ++ false :: (toksStdBp follow ++ post) := by
+        simp [toksStdBp_append, toksStdBp_ws, toksStdBp_cons, itemsBp_eq, tokStdBp]
+      rw [hhead, itemsNext] at hns
+      have h3 := ((h2.split).2.split).2
+      rw [treeBp_eq, toksStdBp_ws] at h3
+      have hbp : BP.length < BP.length + (b + 1 + (treeBp v).length + 0) := by omega
+      have hitems := items_rng T IB BP rest follow (b + 1 + (treeBp v).length + 0) _ BP.length f
+        (by simpa using h3) hdr hbp
+      rw [rangesWalk, value_at _ follow h, textRange_at _ follow h hs ha]
+      simp only [kindOf, children, hfc, spansOf, List.map_cons, List.map_append]
+      have hN : (mkIndex T IB BP).P.bpLen + 1 = BP.length + 1 := rfl
+      rw [hN, siblingsFrom, hns]
+      simp only [List.flatMap_cons, hv]
+      simp only [Nat.add_zero] at hitems
+      rw [hitems]
+      simp only [blen]
+    | .obj ws0 k ws1 ws2 v ws3 rest, follow, b, a, fuel, h, hs, ha, hd => by
+      obtain ⟨f, rfl⟩ : ∃ f, fuel = f + 1 := ⟨fuel - 1, by simp [depth] at hd; omega⟩
+      have hdv : depth v ≤ f := by simp [depth] at hd; omega
+      have hdr : membersDepth rest ≤ f := by simp [depth] at hd; omega
+      obtain ⟨f', rfl⟩ : ∃ f', f = f' + 1 := ⟨f - 1, by have := depth_pos v; omega⟩
+      have hfc := firstChild_some h (false :: (treeBp v ++ membersBp rest ++ [false] ++ toksStdBp follow))
+        (by rw [toksStdBp_append, treeBp_eq]; simp [treeBp])
+      have htoks : (JVal.obj ws0 k ws1 ws2 v ws3 rest).toks ++ follow =
+          (Tok.lbrace :: wsToks ws0) ++ ((JVal.str k).toks ++ ((wsToks ws1 ++ (Tok.colon :: wsToks ws2)) ++
+            (v.toks ++ (wsToks ws3 ++ (rest.toks ++ (Tok.rbrace :: follow)))))) := by
+        simp [JVal.toks]
+      have h' := h
+      rw [htoks] at h'
+      have h2 := (h'.split).2
+      rw [toksStdBp_open_ws _ rfl] at h2
+      obtain ⟨_, _, hnsk, _⟩ := field_step (fuel := f') k ws1 ws2 v _ h2
+      obtain ⟨hvloc, hkrng⟩ := field_loc k ws1 ws2 v _ h2
+      have hkw : rangesWalk (mkIndex T IB BP) (f' + 1) (b + 1) =
+          [some (a + blen (Tok.lbrace :: wsToks ws0), a + blen (Tok.lbrace :: wsToks ws0) + blen (JVal.str k).toks)] := by
+        have hkv := value_at (JVal.str k) _ h2
+        rw [rangesWalk, hkv, hkrng]; simp [kindOf, blen]
+      have hsF : SafeNext (wsToks ws3 ++ (rest.toks ++ (Tok.rbrace :: follow))) :=
+        safe_ws _ _ (safe_members rest follow)
+      have haF : toksBytes (wsToks ws3 ++ (rest.toks ++ (Tok.rbrace :: follow))) ≠ [] :=
+        bytes_ne_nil_of_mem _ Tok.rbrace (by simp)
+      have hv := val_rng T IB BP v _ (b + 1 + 2) _ (f' + 1) hvloc hsF (anch_inner haF) hdv
+      obtain ⟨post, _, hns⟩ := nextSibling_loc v _ hvloc
+      have hhead : toksStdBp (wsToks ws3 ++ (rest.toks ++ (Tok.rbrace :: follow))) ++ post =
+          membersBp rest ++ false :: (toksStdBp follow ++ post) := by
+        simp [toksStdBp_append, toksStdBp_ws, toksStdBp_cons, membersBp_eq, tokStdBp]
+      rw [hhead, membersNext] at hns
+      have h3 := ((hvloc.split).2.split).2
+      rw [treeBp_eq, toksStdBp_ws] at h3
+      have hbp : BP.length < BP.length + (b + 1 + 2 + (treeBp v).length + 0) := by omega
+      have hmem := members_rng T IB BP rest follow (b + 1 + 2 + (treeBp v).length + 0) _ BP.length (f' + 1)
+        (by simpa using h3) hdr hbp
+      rw [rangesWalk, value_at _ follow h, textRange_at _ follow h hs ha]
+      simp only [kindOf, objectFields, hfc, spansOf, List.map_cons, List.map_append]
+      have hN : (mkIndex T IB BP).P.bpLen + 1 = BP.length + 1 := rfl
+      rw [hN, fieldsList]
+      simp only [fieldsUncons, hnsk, hns, List.flatMap_cons, hkw, hv]
+      simp only [Nat.add_zero] at hmem
+      rw [hmem]
+      simp only [blen, List.cons_append, List.nil_append]
+  theorem items_rng (T : List Byte) (IB BP : List Bool) : ∀ (r : JItems) (follow : List Tok) (q a N fuel : Nat),
+      LocT T IB BP (r.toks ++ (Tok.rbracket :: follow)) q a → itemsDepth r ≤ fuel → BP.length < N + q →
+      (siblingsFrom (mkIndex T IB BP) N (itemsHead r q)).flatMap (rangesWalk (mkIndex T IB BP) fuel) =
+        (itemsSpans r a).map some
+    | .nil, follow, q, a, N, fuel, h, hd, hN => by
+      simp [itemsHead, siblingsFrom_none, itemsSpans]
+    | .cons ws0 v ws1 rest, follow, q, a, N, fuel, h, hd, hN => by
+      have hdv : depth v ≤ fuel := by simp [itemsDepth] at hd; omega
+      have hdr : itemsDepth rest ≤ fuel := by simp [itemsDepth] at hd; omega
+      have htoks : (JItems.cons ws0 v ws1 rest).toks ++ (Tok.rbracket :: follow) =
+          (Tok.comma :: wsToks ws0) ++ (v.toks ++ (wsToks ws1 ++ (rest.toks ++ (Tok.rbracket :: follow)))) := by
+        simp [JItems.toks]
+      rw [htoks] at h
+      have h2 := (h.split).2
+      rw [toksStdBp_comma_ws] at h2
+      have hsF : SafeNext (wsToks ws1 ++ (rest.toks ++ (Tok.rbracket :: follow))) :=
+        safe_ws _ _ (safe_items rest follow)
+      have haF : toksBytes (wsToks ws1 ++ (rest.toks ++ (Tok.rbracket :: follow))) ≠ [] :=
+        bytes_ne_nil_of_mem _ Tok.rbracket (by simp)
+      have hv := val_rng T IB BP v _ (q + 0) _ fuel h2 hsF (anch_inner haF) hdv
+      obtain ⟨post, _, hns⟩ := nextSibling_loc v _ h2
+      have hhead : toksStdBp (wsToks ws1 ++ (rest.toks ++ (Tok.rbracket :: follow))) ++ post =
+          itemsBp rest ++ false :: (toksStdBp follow ++ post) := by
+        simp [toksStdBp_append, toksStdBp_ws, toksStdBp_cons, itemsBp_eq, tokStdBp]
+      rw [hhead, itemsNext] at hns
+      have h3 := ((h2.split).2.split).2
+      rw [treeBp_eq, toksStdBp_ws] at h3
+      obtain ⟨pre, post', hB, hb⟩ := bp_at h2
+      have hqlt : q < BP.length := by
+        have := treeBp_length_pos v
+        rw [hB, toksStdBp_append, treeBp_eq]; simp; omega
+      obtain ⟨N', rfl⟩ : ∃ N', N = N' + 1 := ⟨N - 1, by omega⟩
+      have hitems := items_rng T IB BP rest follow (q + 0 + (treeBp v).length + 0) _ N' fuel
+        (by simpa using h3) hdr (by have := treeBp_length_pos v; omega)
+      simp only [Nat.add_zero] at hitems hns hv
+      simp only [itemsHead_cons, siblingsFrom, hns, List.flatMap_cons, hv, itemsSpans, hitems, List.map_append, blen]
+  theorem members_rng (T : List Byte) (IB BP : List Bool) : ∀ (r : JMembers) (follow : List Tok) (q a N fuel : Nat),
+      LocT T IB BP (r.toks ++ (Tok.rbrace :: follow)) q a → membersDepth r ≤ fuel → BP.length < N + q →
+      (fieldsList (mkIndex T IB BP) N (membersHead r q)).flatMap
+        (fun kv => rangesWalk (mkIndex T IB BP) fuel kv.1 ++ rangesWalk (mkIndex T IB BP) fuel kv.2) =
+        (membersSpans r a).map some
+    | .nil, follow, q, a, N, fuel, h, hd, hN => by
+      simp [membersHead, fieldsList_none, membersSpans]
+    | .cons ws0 k ws1 ws2 v ws3 rest, follow, q, a, N, fuel, h, hd, hN => by
+      have hdv : depth v ≤ fuel := by simp [membersDepth] at hd; omega
+      have hdr : membersDepth rest ≤ fuel := by simp [membersDepth] at hd; omega
+      obtain ⟨f', rfl⟩ : ∃ f', fuel = f' + 1 := ⟨fuel - 1, by have := depth_pos v; omega⟩
+      have htoks : (JMembers.cons ws0 k ws1 ws2 v ws3 rest).toks ++ (Tok.rbrace :: follow) =
+          (Tok.comma :: wsToks ws0) ++ ((JVal.str k).toks ++ ((wsToks ws1 ++ (Tok.colon :: wsToks ws2)) ++
+            (v.toks ++ (wsToks ws3 ++ (rest.toks ++ (Tok.rbrace :: follow)))))) := by
+        simp [JMembers.toks, JVal.toks]
+      rw [htoks] at h
+      have h2 := (h.split).2
+      rw [toksStdBp_comma_ws] at h2
+      obtain ⟨_, _, hnsk, _⟩ := field_step (fuel := f') k ws1 ws2 v _ h2
+      obtain ⟨hvloc, hkrng⟩ := field_loc k ws1 ws2 v _ h2
+      have hkw : rangesWalk (mkIndex T IB BP) (f' + 1) (q + 0) =
+          [some (a + blen (Tok.comma :: wsToks ws0), a + blen (Tok.comma :: wsToks ws0) + blen (JVal.str k).toks)] := by
+        have hkv := value_at (JVal.str k) _ h2
+        rw [rangesWalk, hkv, hkrng]; simp [kindOf, blen]
+      have hsF : SafeNext (wsToks ws3 ++ (rest.toks ++ (Tok.rbrace :: follow))) :=
+        safe_ws _ _ (safe_members rest follow)
+      have haF : toksBytes (wsToks ws3 ++ (rest.toks ++ (Tok.rbrace :: follow))) ≠ [] :=
+        bytes_ne_nil_of_mem _ Tok.rbrace (by simp)
+      have hv := val_rng T IB BP v _ (q + 0 + 2) _ (f' + 1) hvloc hsF (anch_inner haF) hdv
+      obtain ⟨post, _, hns⟩ := nextSibling_loc v _ hvloc
+      have hhead : toksStdBp (wsToks ws3 ++ (rest.toks ++ (Tok.rbrace :: follow))) ++ post =
+          membersBp rest ++ false :: (toksStdBp follow ++ post) := by
+        simp [toksStdBp_append, toksStdBp_ws, toksStdBp_cons, membersBp_eq, tokStdBp]
+      rw [hhead, membersNext] at hns
+      have h3 := ((hvloc.split).2.split).2
+      rw [treeBp_eq, toksStdBp_ws] at h3
+      obtain ⟨pre, post', hB, hb⟩ := bp_at h2
+      have hqlt : q < BP.length := by
+        rw [hB, toksStdBp_append]; simp [JVal.toks, toksStdBp, tokStdBp]; omega
+      obtain ⟨N', rfl⟩ : ∃ N', N = N' + 1 := ⟨N - 1, by omega⟩
+      have hmem := members_rng T IB BP rest follow (q + 0 + 2 + (treeBp v).length + 0) _ N' (f' + 1)
+        (by simpa using h3) hdr (by have := treeBp_length_pos v; omega)
+      simp only [Nat.add_zero] at hmem hns hv hnsk hkw
+      simp only [membersHead_cons, fieldsList, fieldsUncons, hnsk, hns, List.flatMap_cons, hkw, hv, membersSpans,
+        hmem, List.map_cons, List.map_append, blen, List.cons_append, List.nil_append]
+end
+
+/-- `text_range` of every node visited by the walk from the root of a document. -/
+theorem rangesWalk_doc (f : Bool) (d : Doc) (fuel : Nat) (hf : depth d.value ≤ fuel) :
+    rangesWalk (build f false d.text) fuel 0 = (spansOf d.value (blen (wsToks d.ws0))).map some := by
+  rw [build_doc]
+  show _ = (spansOf d.value (toksBytes (wsToks d.ws0)).length).map some
+  refine val_rng _ _ _ d.value (wsToks d.ws1) 0 _ fuel (doc_loc d) ?_ ?_ hf
+  · simpa using safe_ws d.ws1 [] safe_nil
+  · right
+    simp [Doc.text, Doc.toks, toksBytes_append]
+
+/-! ### tree-level statement of the interest bits -/
+
+theorem truePositions_append (xs ys : List Bool) :
+    truePositions (xs ++ ys) = truePositions xs ++ (truePositions ys).map (· + xs.length) := by
+  induction xs with
+  | nil => simp [truePositions]
+  | cons b bs ih =>
+    simp only [List.cons_append, truePositions, ih, List.map_append, List.map_map, List.length_cons]
+    rw [List.append_assoc]
+    congr 2
+    all_goals (try (apply List.map_congr_left; intro x _; simp; omega))
+
+/-- positions of the interest bits of a token segment that starts at text offset `a` -/
+def nodeStarts (ts : List Tok) (a : Nat) : List Nat := (truePositions (toksStdIb ts)).map (· + a)
+
+@[simp] theorem nodeStarts_nil (a : Nat) : nodeStarts [] a = [] := rfl
+
+theorem nodeStarts_append (t1 t2 : List Tok) (a : Nat) :
+    nodeStarts (t1 ++ t2) a = nodeStarts t1 a ++ nodeStarts t2 (a + blen t1) := by
+  simp only [nodeStarts, toksStdIb_append, truePositions_append, List.map_append, List.map_map,
+    toksStdIb_length, blen]
+  congr 1
+  apply List.map_congr_left; intro x _; simp; omega
+
+theorem nodeStarts_ws (w : Ws) (a : Nat) : nodeStarts (wsToks w) a = [] := by
+  simp only [nodeStarts, toksStdIb_ws]
+  have : ∀ n, truePositions (List.replicate n false) = [] := by
+    intro n; induction n with
+    | zero => rfl
+    | succ n ih => simp [List.replicate_succ, truePositions, ih]
+  simp [this]
+
+theorem truePositions_replicate_false (n : Nat) : truePositions (List.replicate n false) = [] := by
+  induction n with
+  | zero => rfl
+  | succ n ih => simp [List.replicate_succ, truePositions, ih]
+
+theorem nodeStarts_single (t : Tok) (a : Nat) :
+    nodeStarts [t] a = if Tok.isNode t then [a] else [] := by
+  simp only [nodeStarts, toksStdIb, List.flatMap_cons, List.flatMap_nil, List.append_nil, tokStdIb]
+  by_cases h : Tok.isNode t = true
+  · simp [h, truePositions, truePositions_replicate_false]
+  · simp [h, truePositions_replicate_false]
+
+theorem nodeStarts_cons (t : Tok) (ts : List Tok) (a : Nat) :
+    nodeStarts (t :: ts) a = (if Tok.isNode t then [a] else []) ++ nodeStarts ts (a + blen [t]) := by
+  have := nodeStarts_append [t] ts a
+  simpa [nodeStarts_single] using this
+
+mutual
+  theorem starts_val : ∀ (v : JVal) (a : Nat), nodeStarts v.toks a = (spansOf v a).map (·.1)
+    | .lit l, a => by simp [JVal.toks, nodeStarts_single, Tok.isNode, spansOf]
+    | .num n, a => by simp [JVal.toks, nodeStarts_single, Tok.isNode, spansOf]
+    | .str s, a => by simp [JVal.toks, nodeStarts_single, Tok.isNode, spansOf]
+    | .arr0 ws, a => by
+      simp [JVal.toks, nodeStarts_cons, nodeStarts_append, nodeStarts_ws, nodeStarts_single, Tok.isNode, spansOf]
+    | .obj0 ws, a => by
+      simp [JVal.toks, nodeStarts_cons, nodeStarts_append, nodeStarts_ws, nodeStarts_single, Tok.isNode, spansOf]
+    | .arr ws0 v ws1 rest, a => by
+      have e : (JVal.arr ws0 v ws1 rest).toks =
+          (Tok.lbracket :: wsToks ws0) ++ (v.toks ++ (wsToks ws1 ++ (rest.toks ++ [Tok.rbracket]))) := by
+        simp [JVal.toks]
+      simp only [e, nodeStarts_append]
+      rw [starts_val v, starts_items rest]
+      simp [nodeStarts_cons, nodeStarts_ws, nodeStarts_single, Tok.isNode, spansOf, Nat.add_assoc]
+    | .obj ws0 k ws1 ws2 v ws3 rest, a => by
+      have e : (JVal.obj ws0 k ws1 ws2 v ws3 rest).toks =
+          (Tok.lbrace :: wsToks ws0) ++ ((JVal.str k).toks ++ ((wsToks ws1 ++ (Tok.colon :: wsToks ws2)) ++
+            (v.toks ++ (wsToks ws3 ++ (rest.toks ++ [Tok.rbrace]))))) := by
+        simp [JVal.toks]
+      simp only [e, nodeStarts_append]
+      rw [starts_val v, starts_members rest]
+      simp [JVal.toks, nodeStarts_cons, nodeStarts_append, nodeStarts_ws, nodeStarts_single, Tok.isNode, spansOf,
+        Nat.add_assoc]
+  theorem starts_items : ∀ (r : JItems) (a : Nat), nodeStarts r.toks a = (itemsSpans r a).map (·.1)
+    | .nil, a => by simp [JItems.toks, nodeStarts, toksStdIb, truePositions, itemsSpans]
+    | .cons ws0 v ws1 rest, a => by
+      have e : (JItems.cons ws0 v ws1 rest).toks =
+          (Tok.comma :: wsToks ws0) ++ (v.toks ++ (wsToks ws1 ++ rest.toks)) := by
+        simp [JItems.toks]
+      simp only [e, nodeStarts_append]
+      rw [starts_val v, starts_items rest]
+      simp [nodeStarts_cons, nodeStarts_ws, Tok.isNode, itemsSpans, Nat.add_assoc]
+  theorem starts_members : ∀ (r : JMembers) (a : Nat), nodeStarts r.toks a = (membersSpans r a).map (·.1)
+    | .nil, a => by simp [JMembers.toks, nodeStarts, toksStdIb, truePositions, membersSpans]
+    | .cons ws0 k ws1 ws2 v ws3 rest, a => by
+      have e : (JMembers.cons ws0 k ws1 ws2 v ws3 rest).toks =
+          (Tok.comma :: wsToks ws0) ++ ((JVal.str k).toks ++ ((wsToks ws1 ++ (Tok.colon :: wsToks ws2)) ++
+            (v.toks ++ (wsToks ws3 ++ rest.toks)))) := by
+        simp [JMembers.toks, JVal.toks]
+      simp only [e, nodeStarts_append]
+      rw [starts_val v, starts_members rest]
+      simp [JVal.toks, nodeStarts_cons, nodeStarts_append, nodeStarts_ws, nodeStarts_single, Tok.isNode,
+        membersSpans, Nat.add_assoc]
+end
+
+/-- The positions of the interest bits of a document are the first bytes of its nodes in preorder. -/
+theorem ib_preorder (d : Doc) :
+    truePositions (reference d.text).ib = (spansOf d.value (blen (wsToks d.ws0))).map (·.1) := by
+  rw [(reference_doc d).1]
+  have h := nodeStarts_append (wsToks d.ws0) (d.value.toks ++ wsToks d.ws1) 0
+  have h2 := nodeStarts_append d.value.toks (wsToks d.ws1) (0 + blen (wsToks d.ws0))
+  simp only [nodeStarts_ws, List.nil_append, List.append_nil, Nat.zero_add] at h h2
+  rw [h2, starts_val] at h
+  simpa [nodeStarts, Doc.toks] using h
+
 end SV.JsonNav
